@@ -232,6 +232,25 @@ def compare_live(t, mt, case, out, phase):
     exp_lv = {l: sorted(ps) for l, ps in exp_lv.items()}
     if got_lv != exp_lv:
         bad('levels', exp_lv, got_lv)
+    # levels from every node: the tables describe the subtree of that node only
+    for path, x in by_path.items():
+        lv_x, rev_x = T.levels(x)
+        exp_x = {p: ref.level(p) for p in ref.node if ref.kids[p] and p[:len(path)] == path}
+        got_x = {P(n_): l for n_, l in rev_x.items()}
+        if got_x != exp_x:
+            bad('levels(node).reverse', exp_x, got_x)
+            break
+    # the lists handed out are the caller's: changing them must not change the tree
+    for path, x in by_path.items():
+        ks = T.children(x)
+        if ks is x.children:
+            bad('children() returns the node\'s own list', 'a new list', 'the internal list of %r' % (path,))
+            break
+        del ks[:]
+        if [P(c) for c in T.children(x)] != [path + (i,) for i in range(len(ref.kids[path]))] and \
+                sorted(P(c) for c in T.children(x)) != sorted(path + (i,) for i in range(len(ref.kids[path]))):
+            bad('children() after the caller emptied an earlier result', len(ref.kids[path]), len(T.children(x)))
+            break
     # export numbering (mutates num of constituents only)
     from trees import treeoutput
     treeoutput.compute_export_numbering(t)
